@@ -72,6 +72,30 @@ class Meta:
     def _suffixed(t, suf):
         return t if t.endswith(suf) else t + suf
 
+    @staticmethod
+    def class_base_name(msg) -> str:
+        """typeName, or the documented convention: method with `$/` dropped, split at `/`, `_` and
+        lower->Upper boundaries, each part title-cased (textDocument/didSave -> TextDocumentDidSave)."""
+        if msg.get("typeName"):
+            return msg["typeName"]
+        m = msg["method"]
+        if m.startswith("$/"):
+            m = m[2:]
+        parts, cur = [], ""
+        for i, ch in enumerate(m):
+            if ch in "/_":
+                if cur:
+                    parts.append(cur)
+                cur = ""
+            elif ch.isupper() and cur and (cur[-1].islower() or cur[-1].isdigit() or (i + 1 < len(m) and m[i + 1].islower() and cur[-1].isupper())):
+                parts.append(cur)
+                cur = ch
+            else:
+                cur += ch
+        if cur:
+            parts.append(cur)
+        return "".join(p[:1].upper() + p[1:].lower() for p in parts)
+
     def message_roots(self):
         """(python class name, kind, synthetic literal type) for request / response / notification classes."""
         ID = {"kind": "or", "items": [{"kind": "base", "name": "integer"}, {"kind": "base", "name": "string"}]}
@@ -82,9 +106,7 @@ class Meta:
             return {"kind": "literal", "value": {"properties": props}}
 
         for r in self.doc["requests"]:
-            tn = r.get("typeName")
-            if not tn:
-                continue
+            tn = self.class_base_name(r)
             cn = self._suffixed(tn, "Request")
             props = [{"name": "id", "type": ID}]
             if r.get("params") is not None:
@@ -94,9 +116,7 @@ class Meta:
             yield (cn[: -len("Request")] + "Response", "response",
                    lit([{"name": "id", "type": IDN}, {"name": "result", "type": r["result"]}, JR]))
         for n in self.doc["notifications"]:
-            tn = n.get("typeName")
-            if not tn:
-                continue
+            tn = self.class_base_name(n)
             cn = self._suffixed(tn, "Notification")
             props = []
             if n.get("params") is not None:
